@@ -118,7 +118,7 @@ def roundtrip(chk, pid, replay, signature='roundtrip-fallback'):
         trees.append(('jump', o('x'), a))
         for b in kids:
             for op in list(TL.BINOPS): trees.append((op, a, b))
-    for nm in ('a', 'EXa', 'AG_1', 'x3', 'V1', 'true1', 'p_q', 'Ab'):
+    for nm in ('a', 'EXa', 'AG_1', 'x3', 'V1', 'true1', 'p_q', 'Ab', 'TRUE', 'FALSE', 'tRuE', 'fALSE', 'TRue', 'falsE', 'v', 'ex', 'Ax'):
         for sh in TL.NAME_SHAPES: trees.append(sh(o(nm)))
     bad = []
     for t in trees:
